@@ -3,7 +3,8 @@ package main
 // Fault injection at the public extension point ServerConfig.Store: a bep44.Store whose Get or Put
 // fails with an ORDINARY Go error (disk full, closed database ...) at a PRNG-chosen call. The
 // in-memory store never fails, so the error paths of the put handler and of bep44.Wrapper are
-// reached only here. Oracle-only stream (no Lean ops), shared by
+// reached only here. Every put is also replayed through the Lean model of Wrapper.Put over a failing
+// store (`B44 fput`, Model/Bep44Fault; theorems in Props/C13Fault). Shared by
 //   C08: a put whose store fails is still answered by exactly one well-formed datagram (r or e)
 //        echoing the transaction ID;
 //   C13: whatever the store reports, the item kept for a target never moves backwards: its sequence
@@ -29,6 +30,7 @@ func (r *Run) faultyStoreStream(prop string, rounds int) {
 			r.violation("cannot start a server with a custom store: "+err.Error(), nil)
 			return
 		}
+		r.op(fmt.Sprintf("B44 reset %d", (2 * time.Hour).Nanoseconds()), "ok")
 		priv, pub := r.b44Key()
 		var salt []byte
 		if r.rng.Intn(2) == 0 {
@@ -47,6 +49,10 @@ func (r *Run) faultyStoreStream(prop string, rounds int) {
 				it.cas = r.c13Cas(curSeq, curSeq, have)
 			}
 			it.sign(priv, salt, it.seq, it.bv())
+			if !n.ensureToken() {
+				r.violation("no write token from get", events)
+				break
+			}
 			fault := "none"
 			if have || j > 0 {
 				switch r.rng.Intn(4) {
@@ -57,10 +63,6 @@ func (r *Run) faultyStoreStream(prop string, rounds int) {
 					fault = "put"
 					ps.armFault(0, 1)
 				}
-			}
-			if !n.ensureToken() {
-				r.violation("no write token from get", events)
-				break
 			}
 			n.conn.waitIdle(time.Second)
 			before := len(n.conn.writes())
@@ -93,6 +95,8 @@ func (r *Run) faultyStoreStream(prop string, rounds int) {
 					malformed = true
 				}
 			}
+			// differential: the same put through the Lean model of Wrapper.Put over a failing store (Model/Bep44Fault)
+			r.op("B44 fput "+fault+" "+it.fields()+" "+it.sigFor(), code)
 			r.hist("faulty-store/" + fault + "/" + code)
 			r.count(fmt.Sprintf("fs/%s/%s/%d/%d/%v", fault, code, it.seq-curSeq, it.cas-curSeq, have), fault != "none")
 			if prop == "C08" {
